@@ -9,7 +9,7 @@ when it is reported.
 """
 from .framework import body_loc
 from .effects import effects_of, no_interior_mutability
-from . import rules_c02, rules_c03, rules_c07, rules_c11, rules_parsers
+from . import rules_c02, rules_c03, rules_c07, rules_c11, rules_parsers, rules_bodies
 
 QUERIES = [
     "Flow::<B, SendRequest>::can_proceed", "Flow::<B, SendBody>::can_proceed", "Flow::<B, RecvResponse>::can_proceed",
@@ -67,4 +67,11 @@ def rule_progress(ctx):
     rules_c03.rule_increment(ctx)
 
 
-RULES = [rule_query_purity, rule_progress, rule_need_more]
+def rule_completion(ctx):
+    """same terminal state / consumed total for every split: a body is complete exactly at its last byte (is_ended table,
+    R08.3), a read after that is (0, 0) (R08.4), and the counts the caller sees are the reader's own (R08.5)"""
+    rules_bodies.rule_c08_completion(ctx)
+    rules_bodies.rule_read_forwarding(ctx)
+
+
+RULES = [rule_query_purity, rule_progress, rule_need_more, rule_completion]
